@@ -217,7 +217,11 @@ impl<'a> Sim<'a> {
                 for rid in inv.inventory.iter() {
                     let private = self.nodes[node].svc.as_ref().and_then(|s| s.get(*rid).ok().flatten()).map(|d| d.is_private()).unwrap_or(false);
                     if private {
-                        self.res.violate(&own, "C11", &format!("C11/leak/inventory/{tname}"), format!("n{node} lists private repository {} in its own inventory announcement sent to {}", self.rname(rid), self.name(peer)));
+                        // an announcement signed by an earlier process of this node, when the repository was still
+                        // public, and replayed from the durable gossip store now
+                        let old = self.nodes[node].gt.own_earlier.contains(&ann_id(a)) && self.nodes[node].made_private.contains(rid);
+                        let suffix = if old { "/signed-while-public" } else { "" };
+                        self.res.violate(&own, "C11", &format!("C11/leak/inventory/{tname}{suffix}"), format!("n{node} lists private repository {} in its own inventory announcement sent to {}{}", self.rname(rid), self.name(peer), if old { " (stored announcement, signed before the repository was made private)" } else { "" }));
                     }
                 }
             }
